@@ -12,4 +12,4 @@ globals().update(P.make("C15",
     "subset (quick: a 25% x 30% sample, thorough: all 2^8 x 2^6); EHLO twice with different extension sets; HELO fallback; every hostile "
     "string up to the tier's length over {CR, LF, NUL, SP, '<', '>', 'a'} in each string-typed argument (Hello, Verify, Mail from, ENVID/AUTH, "
     "Rcpt to, ORCPT, NOTIFY, RET) x 4 extension sets. non-trivial = more than one call; distinct = distinct case line",
-    ["C15_one_line (pending)"], _groups))
+    ["C15_mail_one_line", "C15_rcpt_one_line", "C15_hostile_address_refused", "C15_no_ext_no_params", "C15_unoffered_is_error"], _groups))
